@@ -248,7 +248,16 @@ fn fmt_source_code_trace(
 }
 
 fn highlight_substring(line: &str, start: usize, length: usize) -> String {
-    if line.len() < start + length {
+    // `start` is the index of a character in the line, `length` the number of bytes to highlight.
+    let Some(start) = line
+        .char_indices()
+        .map(|(byte_index, _)| byte_index)
+        .chain(std::iter::once(line.len()))
+        .nth(start)
+    else {
+        return line.into();
+    };
+    if line.len() < start + length || !line.is_char_boundary(start + length) {
         return line.into();
     }
     format![
